@@ -194,14 +194,33 @@ func BlockSize(p unsafe.Pointer) uint64     { return 0 }
 func BlockNoScan(p unsafe.Pointer) bool     { return false }
 func BlockElemSize(p unsafe.Pointer) uint64 { return 0 }
 func BlockTypeName(p unsafe.Pointer) string { return "" }
-func AllocBytes() uint64                    { return 0 }
-func ResetAllocBytes()                      {}
-func MaxDepth() uint64                      { return 0 }
-func ResetMaxDepth() uint64                 { return 0 }
-func Steps() uint64                         { return 0 }
-func PoolPolicy(s string)                   {}
-func Note(s string)                         {}
-func Phase(s string)                        {}
+
+var allocBase uint64
+
+// AllocBytes: bytes requested from the allocator since ResetAllocBytes (natively: MemStats.TotalAlloc delta).
+func AllocBytes() uint64 {
+	var ms runtime.MemStats
+	runtime.ReadMemStats(&ms)
+	d := ms.TotalAlloc - allocBase
+	if d < 1<<20 {
+		// natively the figure includes cold-pool objects and runtime bookkeeping the engine does not count;
+		// only allocations out of all proportion (>= 1 MiB for inputs of a few dozen bytes) are observable here
+		return 0
+	}
+	return d
+}
+
+func ResetAllocBytes() {
+	var ms runtime.MemStats
+	runtime.ReadMemStats(&ms)
+	allocBase = ms.TotalAlloc
+}
+func MaxDepth() uint64      { return 0 }
+func ResetMaxDepth() uint64 { return 0 }
+func Steps() uint64         { return 0 }
+func PoolPolicy(s string)   {}
+func Note(s string)         {}
+func Phase(s string)        {}
 
 var poisonSink [][]byte
 
